@@ -79,7 +79,8 @@ def job(item):
         return {"id": cid, "origin": origin, "bad": bad, "n": 0}
     inst = first["inst"]
     evA = first["scan"]["events"]
-    mA = gen.matlab_files([text])
+    ser = rng.random() < 0.5 or "serialize" in text      # both serialization settings (the flag adds artefacts per class)
+    mA = gen.matlab_files([text], ser=ser)
 
     def classes_named(items, nspath, name, path=()):
         out = []
@@ -103,6 +104,11 @@ def job(item):
     picks = [r for r in removals if r["k"] in ("class", "function", "enum", "variable", "include")
              and count[(tuple(r["nspath"]), r["name"])] == 1 and allnames[r["name"]] == 1]
     rng.shuffle(picks)
+    # classes with a serialize member first: their removal must not change what the flag adds to OTHER classes
+    def serializable(r):
+        return r["k"] == "class" and any(m["cpp"] in ("serialize", "serializable") for d in classes_named(inst, r["nspath"], r["name"])
+                                         for m in d["methods"])
+    picks.sort(key=lambda r: 0 if serializable(r) else 1)
     for r in picks[:3]:
         textC = layout.render(r["toks"])
         obC = pycheck.observe(textC)
@@ -129,19 +135,33 @@ def job(item):
             # MATLAB: ignore entry = namespaces::InstantiatedName
             mnames = ["::".join(r["nspath"] + [d["name"]]) for d in insts]
             mnames_try = [mnames]
-            mC = gen.matlab_files([textC])
+            mC = gen.matlab_files([textC], ser=ser)
             if mA[0] == "ok" and mC[0] == "ok":
                 ok_any = False
                 details = []
                 for names in mnames_try:
-                    mB = gen.matlab_files([text], ignore=names)
+                    mB = gen.matlab_files([text], ignore=names, ser=ser)
                     if mB[0] == "ok" and canon_ids(mB[1]) == canon_ids(mC[1]):
                         ok_any = True
                         break
                     details.append(mB[1:3] if mB[0] != "ok" else tree_diff(canon_ids(mB[1]), canon_ids(mC[1])))
+                # the artefacts of every OTHER entity are those of the original module (gateway ids aside)
+                def masked(v):
+                    return re.sub(r"(_wrapper\()(\d+)", r"\1#", v)
+                for path_, body in sorted(mC[1].items()):
+                    if not path_.endswith(".m"):
+                        continue
+                    if path_ not in mA[1]:
+                        bad.append(("matlab-removal-adds-files-for-other-entities", "", {"class": mnames, "removed_text": textC,
+                                                                                        "serialization": ser, "file": path_}))
+                        break
+                    if masked(mA[1][path_]) != masked(body):
+                        bad.append(("matlab-removal-changes-other-entities", "", {"class": mnames, "removed_text": textC, "serialization": ser,
+                                                                                 "file": path_, "detail": first_diff(masked(mA[1][path_]), masked(body))}))
+                        break
                 if not ok_any:
                     cls = ""
-                    bad.append(("matlab-ignore-differs-from-removal", cls, {"class": mnames, "removed_text": textC,
+                    bad.append(("matlab-ignore-differs-from-removal", cls, {"class": mnames, "removed_text": textC, "serialization": ser,
                                                                            "detail": str(details)[:600]}))
         else:
             rest = [e for e in evA if not belongs(e, [], [r["name"]], nsmod)]
@@ -180,8 +200,9 @@ def main():
     ex = common.cover_pairs(ex, rng, min(len(ex), 2000 if thorough else 200))
     ex2, r3 = cases.exhaustive("inst", target=40, maxitems=2)
     ex2 = rng.sample(ex2, min(len(ex2), 700 if thorough else 100))
-    allc = cs + ex + ex2
-    for x in (r, r2, r3):
+    sc, r4 = cases.scenarios("serializable")
+    allc = cs + ex + ex2 + sc
+    for x in (r, r2, r3, r4):
         rep.count("states", max(x.distinct, x.generated))
         rep.count("transitions", x.generated)
     for i, c in enumerate(allc):
